@@ -630,13 +630,15 @@ SPECS['C07'] = dict(
     functions=['billiard.pool.Pool.close', 'Pool.join', 'TaskHandler.body', 'TaskHandler.tell_others', 'ResultHandler.finish_at_shutdown',
                'ResultHandler.on_stop_not_started', 'Pool._join_exited_workers', 'PoolThread.stop'] + POOL_FUNCS[:12],
     bounds={'quick': 'pool of 1..2; 3 apply jobs or one map/imap/imap_unordered of 3 parts; 3 events of progress before close()', 'thorough': '4 events'},
-    outside=['that real threads stop and real children are reaped; wall-clock', 'recycling pools at shutdown (observed: queued jobs are not run once the last worker retired)',
+    outside=['that real threads stop and real children are reaped; wall-clock', 
              'the time-limit scanner thread'],
     assumptions=POOL_ASSUME + ['helper threads are played by the harness on one thread (feeder turn = real TaskHandler.body; workers move while the result handler polls)'],
     trusted_base=TRUST,
     obligations=(
         parts(ch('close-join', 'harness.c07', 'h_close_join', 'close() then join(): drains, refuses late jobs, sentinels, no hang, workers gone, no 30 s guard; also on a pool one of whose workers is a replacement, and on one that was grown after a replacement', timeout=(400, 1800)), 16)
         + parts(twin('close-join', 'harness.c07', 'h_close_join_twin', 'join() returns in some run'), 16)
+        + parts(ch('close-join-recycling', 'harness.c07', 'h_close_join_recycling', 'a pool with a per-child quota of 1 closed with three jobs pending (more than its workers have quota left): every job '
+                   'submitted before close() still gets its result and join() returns', timeout=(300, 1500), nontrivial_witness=True), 2)
         + [ch('death-after-close', 'harness.c07', 'h_death_after_close', 'a worker dies in task code after close(): exactly its job fails with WorkerLostError, the '
               'other job keeps its result, join() returns', timeout=(300, 1500)),
            twin('death-after-close', 'harness.c07', 'h_death_after_close_twin', 'join() returns in some such run'),
